@@ -839,6 +839,215 @@ fn gen_c10(seed: u64, n: usize, tier: &str) {
         let case = Case { kind: "owned".into(), shards, cls: 0, ob: rng.chance(1, 2), store, cands: vec![], ids, sched: vec![], recv: 0, gated: false, mv: 1 };
         run_case(&case);
     }
+    // (d) sequences of queries on one store with different ways of (not) draining the handles
+    gen_c10_seq(&mut rng, if thorough { 40 * n } else { 10 * n });
+}
+
+// ---------------------------------------------------------------------------------------------------------
+// sequences of queries on ONE store: every query must report exactly its own results on its own handles, whatever
+// happened to the handles of the earlier queries (drained, dropped unread, read partially, drained later)
+//
+//   seq mv=<1|2> S=<shards> store=<tracks> q=<query>;<query>.. res=<result>;<result>.. status=..
+//   query  = f~<candidate tracks>~<cls>~<ob>~<policy>  |  o~<ids>~<cls>~<ob>~<policy>
+//   policy = full | drop | part<k> (ok drained, k error items read, then dropped) |
+//            hold1 (drained right after the NEXT query has been issued) | hold2 (drained after the next query's own handling)
+//   result = ok=<items>~err=<items>~other=<n>   or `-` for a handle that was dropped unread
+
+#[derive(Clone, Debug)]
+struct SeqQuery {
+    owned: bool,
+    cands: Vec<TrackSpec>,
+    ids: Vec<u64>,
+    cls: u64,
+    ob: bool,
+    policy: String,
+}
+
+fn enc_query(q: &SeqQuery) -> String {
+    format!(
+        "{}~{}~{}~{}~{}",
+        if q.owned { "o" } else { "f" },
+        if q.owned { q.ids.iter().map(|x| x.to_string()).collect::<Vec<_>>().join(",") } else { enc_tracks(&q.cands) },
+        q.cls,
+        q.ob as u8,
+        q.policy
+    )
+}
+
+fn dec_query(s: &str) -> SeqQuery {
+    let p: Vec<&str> = s.split('~').collect();
+    let owned = p[0] == "o";
+    SeqQuery {
+        owned,
+        cands: if owned { vec![] } else { dec_tracks(p[1]) },
+        ids: if owned { p[1].split(',').filter(|x| !x.is_empty()).map(|x| x.parse().unwrap()).collect() } else { vec![] },
+        cls: p[2].parse().unwrap(),
+        ob: p[3] == "1",
+        policy: p[4].to_string(),
+    }
+}
+
+fn enc_oks(v: &[ObservationMetricOk<f32>]) -> String {
+    v.iter().map(|r| format!("{}:{}:{}:{}", r.from, r.to, enc_am(&r.attribute_metric), enc_am(&r.feature_distance))).collect::<Vec<_>>().join(",")
+}
+
+fn enc_errs(v: Vec<Result<Vec<ObservationMetricOk<f32>>>>) -> (String, usize) {
+    let mut items = vec![];
+    let mut other = 0;
+    for e in v {
+        match e {
+            Err(e) => match e.downcast_ref::<Errors>() {
+                Some(Errors::ObservationForClassNotFound(a, b, cl)) => items.push(format!("{}:{}:{}", a, b, cl)),
+                _ => other += 1,
+            },
+            Ok(_) => other += 1,
+        }
+    }
+    (items.join(","), other)
+}
+
+fn run_seq(mv: u8, shards: usize, store: &[TrackSpec], queries: &[SeqQuery]) {
+    if mv == 2 {
+        run_seq_g::<M2>(mv, shards, store, queries)
+    } else {
+        run_seq_g::<M>(mv, shards, store, queries)
+    }
+}
+
+fn run_seq_g<MM: ScriptMetric>(mv: u8, shards: usize, store_spec: &[TrackSpec], queries: &[SeqQuery]) {
+    use similari::store::track_distance::{TrackDistanceErr, TrackDistanceOk};
+    let g = gates();
+    g.reset(false);
+    *PLAN.lock().unwrap() = None;
+    let (tx, rx) = mpsc::channel();
+    let (spec_c, queries_c) = (store_spec.to_vec(), queries.to_vec());
+    std::thread::spawn(move || {
+        let r = guarded(move || {
+            let mut store: Store<MM> = TrackStoreBuilder::new(shards)
+                .default_attributes(TA::default())
+                .metric(MM::default())
+                .notifier(NoopNotifier)
+                .build();
+            for t in &spec_c {
+                let mut plain = t.clone();
+                plain.obs.retain(|(_, vs)| !vs.is_empty());
+                store.add_track(plain.build::<MM>()).unwrap();
+                for (cl, vs) in &t.obs {
+                    if vs.is_empty() {
+                        store.add(t.id, *cl, None, None, Some(TAUpd)).unwrap();
+                    }
+                }
+            }
+            let n = queries_c.len();
+            let mut results: Vec<String> = vec!["-".to_string(); n];
+            let drain = |ok: TrackDistanceOk<f32>, err: TrackDistanceErr<f32>| -> String {
+                let o = ok.all();
+                let (e, other) = enc_errs(err.all());
+                format!("ok={}~err={}~other={}", enc_oks(&o), e, other)
+            };
+            // (query index, handles, drain after the next query's own handling?)
+            let mut held: Vec<(usize, TrackDistanceOk<f32>, TrackDistanceErr<f32>, bool)> = vec![];
+            for (i, q) in queries_c.iter().enumerate() {
+                let (ok, err) = if q.owned {
+                    store.owned_track_distances(&q.ids, q.cls, q.ob)
+                } else {
+                    store.foreign_track_distances(q.cands.iter().map(|t| t.build::<MM>()).collect(), q.cls, q.ob)
+                };
+                // handles held with hold1 are drained now: the next query has been issued
+                let mut later = vec![];
+                for (j, o, e, after) in held.drain(..) {
+                    if after {
+                        later.push((j, o, e));
+                    } else {
+                        results[j] = drain(o, e);
+                    }
+                }
+                match q.policy.as_str() {
+                    "full" => results[i] = drain(ok, err),
+                    "drop" => {
+                        drop(ok);
+                        drop(err);
+                    }
+                    "hold1" => held.push((i, ok, err, false)),
+                    "hold2" => held.push((i, ok, err, true)),
+                    p => {
+                        let k: usize = p.trim_start_matches("part").parse().unwrap_or(1);
+                        let o = ok.all();
+                        let part: Vec<Result<Vec<ObservationMetricOk<f32>>>> = err.into_iter().take(k).collect();
+                        let (e, other) = enc_errs(part);
+                        results[i] = format!("ok={}~err={}~other={}", enc_oks(&o), e, other);
+                    }
+                }
+                for (j, o, e) in later {
+                    results[j] = drain(o, e);
+                }
+            }
+            for (j, o, e, _) in held.drain(..) {
+                results[j] = drain(o, e);
+            }
+            drop(store);
+            results
+        });
+        let _ = tx.send(r);
+    });
+    let (status, res) = match rx.recv_timeout(RECV_TIMEOUT) {
+        Ok(Some(r)) => ("ok", r.join(";")),
+        Ok(None) => ("panic", String::new()),
+        Err(_) => ("hang", String::new()),
+    };
+    println!(
+        "seq mv={} S={} store={} q={} res={} status={}",
+        mv,
+        shards,
+        enc_tracks(store_spec),
+        queries.iter().map(enc_query).collect::<Vec<_>>().join(";"),
+        res,
+        status
+    );
+    if status == "hang" {
+        use std::io::Write;
+        std::io::stdout().flush().unwrap();
+        std::process::exit(3);
+    }
+}
+
+fn gen_c10_seq(rng: &mut Rng, n: usize) {
+    for i in 0..n {
+        let shards = 1 + rng.below(4) as usize;
+        let nst = 2 + rng.below(6) as usize;
+        let store = gen_store(rng, nst, 12);
+        let nq = 2 + rng.below(3) as usize;
+        let mut queries = vec![];
+        for qi in 0..nq {
+            let owned = rng.chance(1, 3);
+            // classes alternate between queries so that the error multisets of neighbouring queries differ
+            let cls = ((qi as u64) + rng.below(2)) % 3;
+            let mut q = SeqQuery { owned, cands: vec![], ids: vec![], cls, ob: rng.chance(1, 3), policy: String::new() };
+            if owned {
+                let mut ids: Vec<u64> = store.iter().map(|t| t.id).collect();
+                rng.shuffle(&mut ids);
+                ids.truncate(1 + rng.below(3) as usize);
+                q.ids = ids;
+            } else {
+                for j in 0..(1 + rng.below(3)) {
+                    q.cands.push(gen_track(rng, 20 + j + 10 * qi as u64, true));
+                }
+            }
+            q.policy = if qi + 1 == nq {
+                "full".to_string()
+            } else {
+                match rng.below(6) {
+                    0 => "full".to_string(),
+                    1 | 2 => "drop".to_string(),
+                    3 => format!("part{}", rng.below(3)),
+                    4 => "hold1".to_string(),
+                    _ => "hold2".to_string(),
+                }
+            };
+            queries.push(q);
+        }
+        run_seq(1 + (i % 2) as u8, shards, &store, &queries);
+    }
 }
 
 fn replay_c10(path: &str) {
@@ -852,6 +1061,17 @@ fn replay_c10(path: &str) {
             if let Some((k, v)) = tok.split_once('=') {
                 m.insert(k.to_string(), v.to_string());
             }
+        }
+        if let Some(q) = m.get("q") {
+            let store = dec_tracks(m.get("store").map(|s| s.as_str()).unwrap_or(""));
+            let queries: Vec<SeqQuery> = q.split(';').filter(|x| !x.is_empty()).map(dec_query).collect();
+            run_seq(
+                m.get("mv").map(|x| x.parse().unwrap()).unwrap_or(1),
+                m.get("S").map(|x| x.parse().unwrap()).unwrap_or(1),
+                &store,
+                &queries,
+            );
+            continue;
         }
         let kind = m.get("kind").cloned().unwrap_or("foreign".into());
         let store = dec_tracks(m.get("store").map(|s| s.as_str()).unwrap_or(""));
@@ -1008,6 +1228,10 @@ static C05_SPLIT: Mutex<Option<(u64, usize)>> = Mutex::new(None);
 /// (shard k, query number c): in the c-th distance query worker k is held for SLOW_HOLD of wall-clock time while the
 /// caller already waits for the results; the other workers answer at once
 static C05_SLOW: Mutex<Option<(u64, usize)>> = Mutex::new(None);
+/// (shard k, c): the worker of shard k is late by SLOW_HOLD in its c-th FindBaked command (find_usable, behind
+/// auto_waste / skip_epochs / wasted) while the caller already waits for the answers
+static C05_SLOWFB: Mutex<Option<(u64, usize)>> = Mutex::new(None);
+static C05_FB_NO: std::sync::atomic::AtomicUsize = std::sync::atomic::AtomicUsize::new(0);
 static C05_QUERY_NO: std::sync::atomic::AtomicUsize = std::sync::atomic::AtomicUsize::new(0);
 static C05_HELPER: Mutex<Option<std::thread::JoinHandle<()>>> = Mutex::new(None);
 const SLOW_HOLD: Duration = Duration::from_millis(1600);
@@ -1024,6 +1248,14 @@ fn install_c05_hook() {
             "store_distances_ok_sent" => g.arrive_and_wait(("mid", arg), "mid_passed"),
             "store_distances_end" => {
                 g.signal(("dist_end", arg));
+            }
+            "store_find_baked_begin" => {
+                let slow = *C05_SLOWFB.lock().unwrap();
+                if let Some((k, c)) = slow {
+                    if arg == k && C05_FB_NO.fetch_add(1, Ordering::SeqCst) == c {
+                        std::thread::sleep(SLOW_HOLD);
+                    }
+                }
             }
             "store_distances_enqueued" => {
                 let shards = C05_SHARDS.load(Ordering::SeqCst);
@@ -1187,6 +1419,11 @@ fn c05_run(kind: &str, hist_id: usize, calls: &[Call], margin: i64, shards: usiz
     C05_SHARDS.store(if gated { shards } else { 0 }, Ordering::SeqCst);
     *C05_ORDER.lock().unwrap() = perm;
     C05_QUERY_NO.store(0, Ordering::SeqCst);
+    C05_FB_NO.store(0, Ordering::SeqCst);
+    *C05_SLOWFB.lock().unwrap() = order.strip_prefix("slowfb:").map(|x| {
+        let (k, c) = x.split_once('.').unwrap();
+        (k.parse().unwrap(), c.parse().unwrap())
+    });
     *C05_SLOW.lock().unwrap() = order.strip_prefix("slow:").map(|x| {
         let (k, c) = x.split_once('.').unwrap();
         (k.parse().unwrap(), c.parse().unwrap())
@@ -1414,6 +1651,15 @@ fn gen_c05(seed: u64, n: usize, tier: &str) {
             let shards = 2 + (h % 2);
             let at = 2.min(calls.len() - 1);
             c05_run(kind, h, &calls, margin, shards, &format!("slow:{}.{}", shards - 1, at), Some((0..shards as u64).collect()), 0);
+            // ... nor may a worker that is late in answering find_usable: the last collection of expired tracks of
+            // the main store (the one inside the final wasted()) comes after one skip_epochs per scene
+            let nscenes = {
+                let mut v: Vec<u64> = calls.iter().map(|(s, _)| *s).collect();
+                v.sort();
+                v.dedup();
+                v.len()
+            };
+            c05_run(kind, h, &calls, margin, shards, &format!("slowfb:{}.{}", shards - 1, nscenes), Some((0..shards as u64).collect()), 0);
         }
         for shards in 1..=8usize {
             if shards <= 3 {
